@@ -653,6 +653,45 @@ def _run_factory(res, item):
         res.case("factory/reward_class", {"label": str(label.value)}, ok, nontrivial=True,
                  signature="C07/factory/reward_class", observed=[type(obj).__name__, names], expected=[cls.__name__, metrics],
                  item=item)
+    # delta hand-over of fromConfig (rewards.py) - stand-in config object, then the library's own config classes
+    tensor = orc.normalise_ref(_engine_tables(2, 3, 4, 1, 0))
+    for cls, ccls, kind, names in (
+        (CostConstrainedReward, CostConstrainedRewardConfig, "cost_constrained", rmap[RewardLabel.COST_CONSTRAINED][2]),
+        (CombinedReward, CombinedRewardConfig, "combined", rmap[RewardLabel.COMBINED][2]),
+    ):
+        order = ("sensor", "information", "stability", "target")[: len(names)]
+        for delta in (0.85, 0.5, 0.25):
+            case = {"reward": kind, "delta": delta, "via": "fromConfig(stand-in config)"}
+            try:
+                obj = cls.fromConfig([STUBS[k]() for k in order], SimpleNamespace(delta=delta, name=kind, metrics=[]))
+                got = np.asarray(obj.calculate(tensor[..., : len(order)].copy()), dtype=float).reshape(2, 3)
+                ref = orc.reward_ref(kind, list(order), tensor[..., : len(order)], delta)
+                res.case("factory/fromConfig_delta", case, fw.maxabs(got, ref) <= TOL, nontrivial=delta != 0.85,
+                         signature="C07/factory/fromConfig_delta", observed=got.tolist(), expected=ref.tolist(), item=item)
+            except Exception as exc:  # noqa: BLE001
+                res.case("factory/fromConfig_delta", case, False, signature="C07/factory/exception",
+                         observed=f"{type(exc).__name__}: {exc}", item=item)
+            case = {"reward": kind, "delta": delta, "via": "library config class + rewardsFactory"}
+            try:
+                cfg = ccls(metrics=[MetricConfig(name=m) for m in names], delta=delta)
+            except Exception as exc:  # noqa: BLE001
+                text = f"{type(exc).__name__}: {exc}"
+                rejected = type(exc).__name__ == "ValidationError" and "delta" in text and "less than 0" in text
+                res.case("factory/reward_delta_from_config", case, False,
+                         signature="C07/factory/reward_config_rejects_delta" if rejected else "C07/factory/exception",
+                         observed=text[:300], expected="a reward with the configured delta (documented: ratio of "
+                         "information reward to sensor reward, default 0.85)", item=item)
+                continue
+            try:
+                obj = rewardsFactory(cfg)
+                types = [str(getattr(m.metric_type, "value", m.metric_type)) for m in obj.metrics]
+                got = np.asarray(obj.calculate(tensor[..., : len(names)].copy()), dtype=float).reshape(2, 3)
+                ref = orc.reward_ref(kind, types, tensor[..., : len(names)], delta)
+                res.case("factory/reward_delta_from_config", case, fw.maxabs(got, ref) <= TOL, nontrivial=True,
+                         signature="C07/factory/reward_delta_from_config", observed=got.tolist(), expected=ref.tolist(), item=item)
+            except Exception as exc:  # noqa: BLE001
+                res.case("factory/reward_delta_from_config", case, False, signature="C07/factory/exception",
+                         observed=f"{type(exc).__name__}: {exc}", item=item)
     res.observe("factory")
 
 
@@ -911,7 +950,9 @@ def _reward_plan(kind, shape, tier):
         base = ("information", "stability", "sensor", "target")
         orders = list(permutations(base))
         if n == 2 and not thorough:
-            orders = orders[::2] if shape == (1, 2) else orders[1::4]
+            orders = orders[::3] if shape == (1, 2) else orders[1::4]
+        elif n > 2 and not thorough:
+            orders = orders[::2] if (shape[0] + shape[1]) % 2 else orders[1::2]
         combos = [(o, None) for o in orders] + [(base, 0.5), (base[::-1], 0.25)]
         variants = [(o, dl, _slice_family(shape, not thorough or n > 2)) for o, dl in combos]
     else:
@@ -1211,9 +1252,6 @@ def _run_scenario(res, item):
                  expected="policy reference on the stored reward / visibility columns",
                  outcome=f"visible={int(vis.sum())},tasked={int(dec.sum())},negative_rewards={int((rew < 0).sum() > 0)}", item=item)
         res.observe(vis, dec, np.round(rew, 9))
-    res.states += len(by_epoch)
-    res.transitions += max(len(by_epoch) - 1, 0)
-    res.traces += 1
 
 
 # ------------------------------------------------------------------------------------------------ dispatch
